@@ -233,6 +233,7 @@ def c_platform_bounded():
             try:
                 cm.request(name, num); 
                 res_ = cm.matched[-1][0]
+                if not (res_[0] == name and (num is None or res_[1] == num)): bad.append(("granted resource does not match the request", seq, (name, num), res_[:2]))
                 if res_ in granted: bad.append(("granted twice", seq))
                 granted.append(res_)
                 if res_ in cm.available: bad.append(("still available", seq))
